@@ -17,9 +17,10 @@ Record mon := mkMon {
   m_learners : list (N * learner);             (* learners that are owed a terminal call *)
   m_live : list nat;                           (* calls that have not returned *)
   m_lastsync : list (wref * Z);                (* when each worker's latest Synchronize call returned *)
-  m_reissue : list (wref * (list nat * nat)) }. (* per worker: the task it was last told to run, and how often it was re-told *)
-#[export] Instance eta_mon : Settable _ := settable! mkMon <m_streams; m_syncs; m_supplied; m_learners; m_live; m_lastsync; m_reissue>.
-Definition mon0 : mon := mkMon [] [] [] [] [] [] [].
+  m_reissue : list (wref * (list nat * nat));   (* per worker: the task it holds and how often it has re-requested it since the assignment *)
+  m_terms : list (nat * list (wref * list nat)) }. (* TerminateWorkers calls: the (worker, task) pairs each waits for *)
+#[export] Instance eta_mon : Settable _ := settable! mkMon <m_streams; m_syncs; m_supplied; m_learners; m_live; m_lastsync; m_reissue; m_terms>.
+Definition mon0 : mon := mkMon [] [] [] [] [] [] [] [].
 
 (* ---- helpers on dumps -------------------------------------------------------------- *)
 Definition all_scqs (d : dump) : list (pkey * d_scq) :=
@@ -349,6 +350,36 @@ Definition get_stream (m : mon) (c : nat) : option stream_mon := find (fun s => 
 Definition scheduler_made (r : resp) : bool :=
   (r_tag r =? 0)%N.
 
+(* ---- C06: TerminateWorkers ------------------------------------------------------------------------ *)
+(* the workers a TerminateWorkers call with pattern [p] waits for: those it matches that hold a task *)
+Definition term_waits (p : pattern) (d : dump) : list (wref * list nat) :=
+  flat_map (fun '(pk, q) =>
+    flat_map (fun k => let w := mkW (mkSK pk (ds_sc q)) (fst (dw_id k)) (snd (dw_id k)) in
+                       match dw_task k with
+                       | Some ops => if matches w p then [(w, ops)] else []
+                       | None => []
+                       end) (ds_workers q)) (all_scqs d).
+(* the task keeps its identity while its operation set changes: follow it *)
+Definition term_track (d : dump) (x : wref * list nat) : wref * list nat :=
+  match find_dworker d (w_sk (fst x)) (wid (fst x)) with
+  | Some k => match dw_task k with
+              | Some ops' => if shares_op (snd x) ops' then (fst x, ops') else x
+              | None => x
+              end
+  | None => x
+  end.
+(* the wait is over once the worker no longer executes that task *)
+Definition term_over (d : dump) (x : wref * list nat) : bool :=
+  match find_dworker d (w_sk (fst x)) (wid (fst x)) with
+  | Some k => match dw_task k with
+              | Some ops' => negb (shares_op (snd x) ops')
+                             || negb (existsb (fun o => existsb (Nat.eqb (do_name o)) ops'
+                                                        && match do_resp o with None => true | Some _ => false end) (d_ops d))
+              | None => true
+              end
+  | None => true
+  end.
+
 Definition c02_obs (post : dump) (acc : mon * string) (o : obs) : mon * string :=
   let '(m, err) := acc in
   let fail (e : string) := (m, if String.eqb err "" then e else err) in
@@ -432,6 +463,18 @@ Definition p_step (cfg : config) (t0 : Z) (m : mon) (pre : dump) (e : event) (o 
            end in
   let '(ls, e_learn) := fold_left c07_ghost o (m_learners m, ""%string) in
   let m := m <| m_learners := ls |> in
+  (* C02: a stream its client did not cancel is a waiting client: the operation it is attached to is not collected under
+     it, so a done message for an operation that is gone cannot state "cancelled for lack of waiting clients" *)
+  let e_gone := first_nonempty (map (fun x =>
+                  match x with
+                  | OMsg c name _ (Some r) =>
+                    match get_stream m c, find_dop post name with
+                    | Some s, None => if scheduler_made r && (r_code r =? cCANCELLED)%N && negb (sm_cancelled s) && negb (sm_done s)
+                                      then "C02:cancelled-for-lack-of-waiters-while-a-client-waited" else ""
+                    | _, _ => ""
+                    end
+                  | _ => ""
+                  end) o) in
   let '(m, e_stream) := fold_left (c02_obs post) o (m, ""%string) in
   let e_sync := first_nonempty (map (fun x =>
                   match x with
@@ -515,72 +558,84 @@ Definition p_step (cfg : config) (t0 : Z) (m : mon) (pre : dump) (e : event) (o 
                    | OPanic what => if String.eqb what "hang" then "C06:calls-blocked-forever" else "C01:scheduler-panicked"
                    | _ => ""
                    end) o) in
-  (* C06: a task a worker keeps re-requesting is failed after the configured number of retries:
-     count, per worker, how often it is told again to run the task it was already told to run *)
-  (* a completion report the scheduler accepts (it names the task the worker holds) ends that assignment: whatever the
-     worker is told next is a fresh assignment, also when a retry on the same size class hands it the very same task *)
-  let m := match e with
-           | EStartSync _ a _ =>
-             match y_state a, find_dworker pre (w_sk (y_worker a)) (wid (y_worker a)) with
-             | WCompleted d _, Some k =>
-               match dw_task k with
-               | Some ops0 =>
-                 if existsb (fun o => existsb (Nat.eqb (do_name o)) ops0 && (do_digest o =? d)%N) (d_ops pre)
-                 then m <| m_reissue := adel wref_eqb (y_worker a) (m_reissue m) |> else m
-               | None => m
-               end
-             | _, _ => m
-             end
-           | _ => m
-           end in
-  let '(m, e_retry) :=
-    fold_left (fun (acc : mon * string) x =>
-      let '(m, err) := acc in
-      match x with
-      | OSync c (DExec _ _ _ _ _) _ =>
-        match find (fun '(c', _) => Nat.eqb c c') syncs_before with
-        | Some (_, w) =>
-          match find_dworker post (w_sk w) (wid w) with
-          | Some k =>
-            match dw_task k with
-            | Some ops =>
-              let prev := aget wref_eqb w (m_reissue m) in
-              let n := match prev with
-                       | Some (ops0, n0) => if shares_op ops0 ops then S n0 else O
-                       | None => O
-                       end in
-              (m <| m_reissue := aset wref_eqb w (ops, n) (m_reissue m) |>,
-               if String.eqb err "" && Nat.ltb (cf_retry_count cfg) n then "C06:task-reissued-beyond-retry-limit" else err)
-            | None => acc
-            end
-          | None => acc
-          end
-        | None => acc
+  (* C06: a task its worker keeps re-requesting is failed after the configured number of retries.  A re-request is a new
+     Synchronize call of a worker that holds a task (pre dump) and does not report that task (idle, or another digest).
+     The first cf_retry_count re-requests since the assignment are answered by telling the worker again; the next one
+     fails the task with INTERNAL.  [rereq]: the worker, the operations of its task, the re-requests before this one. *)
+  let rereq : option (wref * list nat * nat) :=
+    match e with
+    | EStartSync _ a _ =>
+      let w := y_worker a in
+      match find_dworker pre (w_sk w) (wid w) with
+      | Some k =>
+        match dw_task k with
+        | Some ops =>
+          let names_task (d : N) := existsb (fun o => existsb (Nat.eqb (do_name o)) ops && (do_digest o =? d)%N) (d_ops pre) in
+          let correct := match y_state a with
+                         | WExecuting d => names_task d
+                         | WCompleted d _ => names_task d
+                         | WIdle => false
+                         | WNoState => true
+                         end in
+          if correct then None
+          else Some (w, ops, match aget wref_eqb w (m_reissue m) with
+                             | Some (ops0, n0) => if shares_op ops0 ops then n0 else O
+                             | None => O
+                             end)
+        | None => None
         end
-      | _ => acc
-      end) o (m, ""%string) in
-  (* C06/C02: "retry limit reached" is only a stated cause once the worker really
-     was told to run the task the configured number of extra times *)
-  let e_early := first_nonempty (map (fun o =>
-                  match do_resp o, find_dop pre (do_name o) with
+      | None => None
+      end
+    | _ => None
+    end in
+  let '(m, e_retry) :=
+    match rereq, e with
+    | Some (w, ops, n), EStartSync c _ _ =>
+      let told := existsb (fun x => match x with OSync c' (DExec _ _ _ _ _) _ => Nat.eqb c c' | _ => false end) o in
+      match find_dworker post (w_sk w) (wid w) with
+      | Some k =>
+        match dw_task k with
+        | Some ops' =>
+          if told && shares_op ops ops'
+          then (m <| m_reissue := aset wref_eqb w (ops', S n) (m_reissue m) |>,
+                if Nat.leb (cf_retry_count cfg) n then "C06:task-reissued-beyond-retry-limit" else ""%string)
+          else (m, ""%string)
+        | None => (m, ""%string)
+        end
+      | None => (m, ""%string)
+      end
+    | _, _ => (m, ""%string)
+    end in
+  (* C06/C02: "retry limit reached" is a stated cause only at the re-request after the configured number of them *)
+  let e_early := first_nonempty (map (fun o1 =>
+                  match do_resp o1, find_dop pre (do_name o1) with
                   | Some r, Some o0 =>
-                    match do_resp o0, do_worker o0 with
-                    | None, Some wk =>
+                    match do_resp o0 with
+                    | None =>
                       if scheduler_made r && (r_code r =? cINTERNAL)%N then
-                        match aget wref_eqb (mkW (do_sk o0) (fst wk) (snd wk)) (m_reissue m0) with
-                        | Some (ops0, n0) =>
-                          if shares_op ops0 (do_taskops o0) && negb (Nat.eqb n0 (cf_retry_count cfg))
-                          then "C06:task-failed-before-retry-limit" else ""
-                        | None => ""
+                        match rereq with
+                        | Some (_, ops, n) =>
+                          if existsb (Nat.eqb (do_name o1)) ops && Nat.eqb n (cf_retry_count cfg) then ""
+                          else "C06:task-failed-before-retry-limit"
+                        | None => "C06:task-failed-before-retry-limit"
                         end
                       else ""
-                    | _, _ => ""
+                    | Some _ => ""
                     end
                   | _, _ => ""
                   end) (d_ops post)) in
+  (* C06: a TerminateWorkers call returns once none of the workers it waits for executes the task it held at the call *)
+  let m := match e with
+           | EStartTerminate c pat _ => m <| m_terms ::= cons (c, term_waits pat post) |>
+           | _ => m
+           end in
+  let m := m <| m_terms := map (fun '(c, ws) => (c, map (term_track post) ws))
+                               (filter (fun '(c, _) => existsb (Nat.eqb c) (m_live m)) (m_terms m)) |> in
+  let e_term := first_nonempty (map (fun '(c, ws) => if forallb (term_over post) ws
+                                                     then "C06:terminate-workers-not-woken" else ""%string) (m_terms m)) in
   let e_exec := match e with
                 | EStartExecute c a _ => first_nonempty [c07_exec o; c03_exec pre post a; c05_exec cfg t0 pre post c a o]
                 | _ => ""
                 end in
   (m, first_nonempty [e_panic; c01_dump post; e_sync; e_stream; e_lost; e_cancel; c03_dump post; c03_waited post; c04_dump post; e_exec; c05_assign pre post;
-                      c06_dump m post; c06_final m post; e_arm; e_retry; e_early; e_learn; c07_background post; c07_learners_match m post]).
+                      c06_dump m post; c06_final m post; e_arm; e_retry; e_early; e_learn; c07_background post; c07_learners_match m post; e_gone; e_term]).
